@@ -33,6 +33,18 @@ def check_row(case, stats):
     stats.case(row, nontrivial_row(row), sample=case, labels=["cells=%d" % min(len(exp), 4)])
     if got != exp:
         raise Violation(case, "GherkinLine.table_cells(%r) = %r, documented splitting gives %r" % (row, got, exp))
+    if trim(row).startswith("|"):
+        # a consumer empties / edits the items of a matched row token; the same row text matched again is unaffected
+        for _ in range(2):
+            tok = gh.Token(gh.GherkinLine(row + "\n", 1), {"line": 1})
+            if not gh.TokenMatcher("en").match_TableRow(tok):
+                raise Violation(case, "row %r is not matched as a table row" % row)
+            items = [(c["text"], c["column"]) for c in tok.matched_items]
+            if items != exp:
+                raise Violation(case, "matched items of row %r are %r (second look at the same text after a consumer edited the first token's items), expected %r" % (row, items, exp))
+            for c in tok.matched_items:
+                c["text"] = "edited"
+            del tok.matched_items[:]
     if case.get("doc") and trim(row).startswith("|"):
         r = gh.parse(PREFIX + row + "\n")
         if r[0] != "ok":
@@ -58,6 +70,14 @@ def unit_rows(a):
                 if n % a["nshards"] == a["shard"]:
                     yield {"sub": "row", "row": "".join(tup), "doc": L <= a["doclen"]}
     sweep(stats, gen(), check_row)
+    return stats
+
+
+def unit_escape_pairs(a):
+    """a backslash followed by ANY character: only n, | and the backslash itself mean something"""
+    stats = Stats()
+    chars = [chr(i) for i in range(1, 0x250) if chr(i) not in "\n\r"] + list("\u2028\u3000\uff5c\uff3c\U0001F600")
+    sweep(stats, ({"sub": "row", "row": ctxt % ("\\" + c), "doc": True} for c in chars for ctxt in ("| %s |", "|%s|", "| C:%semp | b |", "| a%s", "| \\%s |")), check_row)
     return stats
 
 
@@ -289,6 +309,7 @@ def run(ctx):
     maxlen, doclen = (6, 5) if q else (8, 6)
     ctx.units("rows-exhaustive", unit_rows,
               [{"maxlen": maxlen, "doclen": doclen, "shard": i, "nshards": ns} for i in range(ns)], procs=ns)
+    ctx.units("escape-pairs", unit_escape_pairs, [{}])
     ctx.units("rows-long", unit_long_rows, [{"lengths": list(range(1, 40)) + [63, 64, 65, 100, 127, 128, 129, 255, 256, 257, 300] + ([] if q else [1000, 4096, 10000])}])
     ctx.units("rows-unicode", unit_unirows,
               [{"n": 2250 if q else 20000, "seed": ctx.seed, "shard": i} for i in range(8 if q else 16)], procs=16)
